@@ -16,7 +16,7 @@ def leaves():
     nan = float("nan")
     return [None, True, False, 0, -7, 2 ** 70, 1.5, float("inf"), float("-inf"), nan, -0.0, 1e300, 5e-324, 2j, complex(1, -2), complex(float("inf"), nan), "", "a", "a\n'\"\\é\x00😀", "{x}",
             b"", b"\x00\xff'\"", bytearray(b"x\n"), hy.models.Keyword("kw"), hy.models.Keyword(""), Fraction(1, 3), Fraction(-5, 1), range(3), range(1, 10, 2), range(0), slice(1, None, 2),
-            slice(None), slice(None, 4), (), [], {}, set(), frozenset()]
+            slice(None), slice(None, 4), slice(2, 5, 1), slice(None, None, 1), range(2, 5, 1), range(5, 0, -1), slice(0, 3, -1), (), [], {}, set(), frozenset()]
 
 
 def containers():
@@ -156,12 +156,36 @@ def _cyc_ok(k):
         x = collections.OrderedDict()
         x[1] = x
         want = None
-    else:
+    elif k == 5:
         a = [1]
         b = (a, 2)
         a.append(b)
         x = a
         want = None
+    elif k == 6:
+        # a container that reaches itself twice
+        x = [0]
+        x.append(x)
+        x.append(x)
+        want = "[0 [...] [...]]"
+    elif k == 7:
+        x = {}
+        x["a"] = x
+        x["b"] = [x]
+        want = '{"a" {...}  "b" [{...}]}'
+    elif k == 8:
+        b = []
+        x = [b]
+        b.extend([x, x])
+        want = "[[[...] [...]]]"
+    else:
+        # the same (acyclic) object twice is not a cycle
+        a = [1]
+        x = [a, a, {"k": a}]
+        s = hy.repr(x)
+        if s != '[[1] [1] {"k" [1]}]':
+            return "shared (not cyclic) element printed as %r" % s
+        return None
     try:
         s = hy.repr(x)
     except RecursionError:
@@ -204,8 +228,8 @@ def spec(tier, seed):
         fn = "c%d" % ci
         L = ["def %s(a: int, b: int) -> bool:" % fn, '    """', "    post: _", '    """', "    return val_ok(%d, _sk.box(a, 0, %d), _sk.box(b, 0, %d))" % (ci, nl - 1, (nl - 1) if tier == "thorough" else 7)]
         obs.append(Ob(fn, "\n".join(L), sample="container %s over all pairs of leaves" % name, group="containers"))
-    L = ["def hcyc(k: int) -> bool:", '    """', "    post: _", '    """', "    return cyc_ok(_sk.box(k, 0, 5))"]
-    obs.append(Ob("hcyc", "\n".join(L), sample="self-referential list, dict, list-in-dict, deque, OrderedDict, list-tuple cycle", group="cycles"))
+    L = ["def hcyc(k: int) -> bool:", '    """', "    post: _", '    """', "    return cyc_ok(_sk.box(k, 0, 9))"]
+    obs.append(Ob("hcyc", "\n".join(L), sample="self-referential list, dict, list-in-dict, deque, OrderedDict, list-tuple cycle, containers that reach themselves twice / through two routes, a shared acyclic element", group="cycles"))
     tw = "\n".join(["def twin0(a: int) -> bool:", '    """', "    post: _", '    """', "    val_ok(-1, _sk.box(a, 0, 3), 0)", "    return False"])
     obs.append(Ob("twin0", tw, twin=True, group="twin"))
     return {
@@ -219,7 +243,7 @@ def spec(tier, seed):
         "functions_encoded": ["hy.core.hy_repr: every registered printer for the documented value types", "hy.reader + hy.eval on the printed text"],
         "bounds": "%d leaf values (None, bools, ints incl. > 2**64, floats incl. inf/nan/-0.0/denormal, complex, str/bytes/bytearray with quotes, escapes, NUL, non-ASCII, keywords, Fraction, range, "
                   "slice, empty containers) and %d container constructors (list, tuple, dict, set, frozenset, deque, OrderedDict, Counter, defaultdict (list/int factory), ChainMap, a "
-                  "depth-3 nesting) over pairs of leaves; 6 self-referential structures" % (nl, len(cs)),
+                  "depth-3 nesting) over pairs of leaves; 10 self-referential or sharing structures" % (nl, len(cs)),
         "outside": "deque with maxlen (printed without it); arbitrary nesting depth and sizes (hypothesis-style generation); values of other types",
         "stubs": ["calls executed under crosshair.tracers.NoTracing"],
         "assumptions": ["equality is type-exact, distinguishes -0.0 from 0.0 and treats nan as equal to nan; dict/OrderedDict order compared; sets compared up to equality"],
